@@ -5,6 +5,7 @@ from datetime import datetime
 from typing import TYPE_CHECKING, Iterable
 
 from repid.connections.abc import ConsumerT
+from repid.connections.in_memory.utils import hand_back
 from repid.message import MessageCategory
 
 if TYPE_CHECKING:
@@ -58,7 +59,7 @@ class _InMemoryConsumer(ConsumerT):
         for msg in [m for m in self._queue.processing if self._queue.holders.get(m) is self]:
             self._queue.processing.remove(msg)
             self._queue.holders.pop(msg, None)
-            self._queue.simple.put_nowait(msg)
+            hand_back(self._queue, msg, self.category)
         await asyncio.sleep(0)
 
     def __update_delayed(self) -> None:
